@@ -99,10 +99,66 @@ def build_jobs(tier, seed):
     return jobs
 
 
+# the names layer is modelled over text; for bytes grammars the call is compared with its hand-written expansion on the
+# real generator: (description with template calls, description with the calls expanded, inputs)
+BYTES_PAIRS = [
+    ('Word = b/[a-z]+/\nT(w) = Word where `lambda v: v == w`\nstart = [T(b"ab"), T(b"c")]\n',
+     'Word = b/[a-z]+/\nstart = [Word where `lambda v: v == b"ab"`, Word where `lambda v: v == b"c"`]\n'),
+    ('T(w) = [w, `w`, `len(w)`, w?]\nstart = T(b"ab") | T(b"a")\n',
+     'start = [b"ab", `b"ab"`, `len(b"ab")`, b"ab"?] | [b"a", `b"a"`, `len(b"a")`, b"a"?]\n'),
+    ('T(w, n) = [w{n}, `(w, n)`]\nstart = T(b"a", 2) | T(0x62, 1)\n',
+     'start = [b"a"{2}, `(b"a", 2)`] | [0x62{1}, `(0x62, 1)`]\n'),
+    ('class K(w) { head: w; same: b/[a-z]*/ |> `lambda v: v == w` }\nstart = K(b"ab")\n',
+     'class K { head: b"ab"; same: b/[a-z]*/ |> `lambda v: v == b"ab"` }\nstart = K\n'),
+    ('T(w) = b/[a-z]/ where `lambda v: v in w`\nstart = T(b"abc")+\n',
+     'start = (b/[a-z]/ where `lambda v: v in b"abc"`)+\n'),
+]
+# parsed objects as argument values: equal objects are not interchangeable (positions, field types); spans are compared
+OBJECT_PAIRS = [
+    ('start = Alt1 | Alt2\nclass Alt1 { a: A; t: T(a); x: "x" }\nclass Alt2 { z: "0"; a: A; t: T(a); y: "y" }\nclass A { v: /\\d+/ |> `int` }\nT(x) = "!" |> `lambda _: x`\n',
+     'start = Alt1 | Alt2\nclass Alt1 { a: A; t: "!" |> `lambda _: a`; x: "x" }\nclass Alt2 { z: "0"; a: A; t: "!" |> `lambda _: a`; y: "y" }\nclass A { v: /\\d+/ |> `int` }\n'),
+    ('class Box(v) { value: `v` }\nT(b) = `type(b.value).__name__`\nstart = [let a = Box(1) in T(a), let a = Box(True) in T(a), /.*/]\n',
+     'class Box(v) { value: `v` }\nstart = [let a = Box(1) in `type(a.value).__name__`, let a = Box(True) in `type(a.value).__name__`, /.*/]\n'),
+    ('class W { w: /[a-z]+/ }\nPair(p) = [`p`, W]\nstart = (let a = W in (Pair(a) << "!")) | ("a" >> (let a = W in Pair(a)))\n',
+     'class W { w: /[a-z]+/ }\nstart = (let a = W in ([`a`, W] << "!")) | ("a" >> (let a = W in [`a`, W]))\n'),
+]
+OBJECT_INPUTS = ['07!y', '7!x', '07!x', '7!y', '', 'ab', 'aab', 'abab!', 'aabab', 'a']
+BYTES_INPUTS = [b'ab', b'abab', b'abc', b'a', b'aa', b'aab', b'b', b'c', b'abca', b'', b'cab', b'ba']
+
+
+def bytes_family(seed):
+    bad = []
+    n = 0
+    for k, (called, expanded) in enumerate(BYTES_PAIRS + OBJECT_PAIRS):
+        inputs = BYTES_INPUTS if k < len(BYTES_PAIRS) else OBJECT_INPUTS
+        for named in (False, True):
+            hdr = (lambda tag: f'grammar c06b{seed}_{k}{tag}\n') if named else (lambda tag: '')
+            try:
+                a, _ = realrun.compile_grammar(hdr('c') + called)
+                b, _ = realrun.compile_grammar(hdr('e') + expanded)
+            except Exception as exc:      # noqa: BLE001
+                bad.append({'key': f'bytes|{k}|compile', 'sig': f'bytes|{k}', 'kind': 'spec', 'seed': seed,
+                            'what': f'bytes family {k}: compilation raised {type(exc).__name__}: {str(exc)[:150]}'})
+                continue
+            for t in inputs:
+                ra = realrun.run_real_api(a.parse, t, 0, True)[0]
+                rb = realrun.run_real_api(b.parse, t, 0, True)[0]
+                n += 1
+                if ra != rb and not (ra[0] == rb[0] == 'E'):
+                    bad.append({'key': f'bytes|{k}|{named}|{t}', 'sig': f'bytes|{k}', 'kind': 'spec', 'seed': seed,
+                                'what': f'call and expansion: {called!r} on {t!r} gives {str(ra)[:100]}, its expansion {expanded!r} gives {str(rb)[:100]}'})
+                    break
+    return bad, n
+
+
 def run(tier, seed, lean):
     jobs = build_jobs(tier, seed)
     results = envrun.run_jobs(jobs)
     cov, violations, broken = c05.summarise(results, jobs)
+    bv, bn = bytes_family(seed)
+    violations += bv
+    cov['evaluations'] += bn
+    cov['bytes_call_vs_expansion'] = bn
     cov['rule'] = ('hand-written families (same template at the same position with different arguments, nested in itself, positional/keyword in any order, '
                    'argument values of every type including unhashable ones, string literals as value and parser, compound arguments that mention '
                    'call-site names and are passed on, recursion, classes with parameters) and typed random programs, with and without a grammar header. '
